@@ -65,7 +65,12 @@ func (g *lfGen) selector() string {
 		if g.rr.Intn(4) != 0 {
 			continue
 		}
-		switch g.rr.Intn(8) {
+		switch g.rr.Intn(10) {
+		case 8:
+			// the empty pattern and patterns that only the empty value fails / passes
+			ms = append(ms, fmt.Sprintf(`%s!~"%s"`, l, hx.Pick(g.rr, []string{"", "", ".+"})))
+		case 9:
+			ms = append(ms, fmt.Sprintf(`%s=~""`, l))
 		case 0:
 			ms = append(ms, fmt.Sprintf(`%s="%s"`, l, hx.Pick(g.rr, lfValues)))
 		case 1:
